@@ -13,20 +13,26 @@ outside the model.
 
 Code shape (what mirrors what):
 * `unravel`                ↔ `GridArchive.int_to_grid_index` (`np.unravel_index`);
-* `fillColors / gridColors / gridEdges / gridHeatmap2`
+* `colorStep / fillColors / gridColors / gridEdges / axLims / gridHeatmap2`
                            ↔ `grid_archive_heatmap`, 2-D branch
-                             (`colors[gy, gx] = objective`, `colors.T`, boundary swap);
-* `fillCells / gridHeatmap1` ↔ `grid_archive_heatmap`, 1-D branch + `archive_heatmap_1d`;
-* `sortPairs / sortIdx / sortedCentroids / midpoints / cvtEdges / invFrom / invIdx /
-  cvt1dColors / cvtHeatmap1` ↔ `cvt_archive_heatmap`, 1-D branch
+                             (`colors[gy, gx] = objective`, `colors.T`, boundary and bound swap);
+* `cellStep / fillCells / grid1dKey / grid1dColors / heatmap1d / gridHeatmap1`
+                           ↔ `grid_archive_heatmap`, 1-D branch + `archive_heatmap_1d`;
+* `withIdx / insertBy / isort / sortPairs / sortIdx / sortedCentroids / midpoints / cvtEdges /
+  invFrom / invIdx / cvt1dColors / cvtHeatmap1`
+                           ↔ `cvt_archive_heatmap`, 1-D branch
                              (`argsort`, midpoints, the `inv_idx[x] = i` loop);
-* `cvt2Cells`              ↔ `cvt_archive_heatmap`, 2-D branch, colour assignment only
+* `lastObj / widen / clip01 / cvt2Cells`
+                           ↔ `cvt_archive_heatmap`, 2-D branch, colour assignment only
                              (`pt_to_obj`, `min_obj / max_obj`, the ±0.01 widening,
                              `clip((obj - min) / (max - min), 0, 1)`);
-* `scatter / boundaryLines / axLims` ↔ `sliding_boundaries_archive_heatmap`,
-                             `proximity_archive_plot`;
-* `pick / normYs / sortByObj / normClip / parallelPlot` ↔ `parallel_axes_plot`;
-* `clim`                   ↔ `vmin = np.min(objective_batch) if vmin is None else vmin` (all of them).
+* `scatterPt / scatter / boundaryLines / axLims`
+                           ↔ `sliding_boundaries_archive_heatmap`, `proximity_archive_plot`;
+* `colsOk / pick / normRest / normYs / sortByObj / normClip / parallelPlot`
+                           ↔ `parallel_axes_plot`;
+* `minL / maxL / clim`     ↔ `vmin = np.min(objective_batch) if vmin is None else vmin` (all of them).
+Spec-shaped: `cellObj` (what a cell stores), `lastBy` (last write wins), `axisFrac`
+(relative position on an axis).
 
 An elite is what the plot functions see of a stored row.  The model describes the
 behaviour the property demands (= the repaired code): the 1-D grid heat-map
